@@ -60,6 +60,7 @@ class State:
         self.log = []       # ghost log: list of (level, [args])
         self.out = {}       # ghost out streams: rid -> z3 Seq(String) of writes
         self.globals_written = []
+        self.calls = []     # ghost: (callee key, bound arguments) of calls to contracts with record=True
 
     def copy(self):
         s = State()
@@ -470,6 +471,14 @@ class Engine:
             if ty is None:
                 ty = self.conc_type(a if isinstance(a, Conc) else b)
             return P(ty, z3.If(c, self.term(a, ty), self.term(b, ty)))
+        a_none = isinstance(a, NoneV) or (isinstance(a, Conc) and a.v is None)
+        b_none = isinstance(b, NoneV) or (isinstance(b, Conc) and b.v is None)
+        if isinstance(a, Ref) and b_none:
+            return OptV(c, a)
+        if isinstance(b, Ref) and a_none:
+            return OptV(z3.Not(c), b)
+        if isinstance(a, Ref) and isinstance(b, OptV) and isinstance(b.val, Ref) and z3.is_false(z3.simplify(b.some)):
+            return OptV(c, a)
         if isinstance(a, OptV) or isinstance(b, OptV) or isinstance(a, NoneV) or isinstance(b, NoneV) \
                 or (isinstance(a, Conc) and a.v is None) or (isinstance(b, Conc) and b.v is None):
             inner = None
